@@ -544,6 +544,17 @@ impl Table for Hmat {
                 v.push((format!("sll[{}x{}]", i, t), vec![mpd, sl, Op::new(H_MSC, 1, 2)]));
             }
         }
+        // single structures larger than 64 KiB (a structure's own length is 32 bits wide; a helper that narrows it on the way
+        // to the header Length is met only here): side caches with 32 750..32 770 and 70 000 handles, localities of 128x256,
+        // 181x181, 255x255 and 300x300, each between two ordinary structures
+        for n in [32_750u64, 32_751, 32_752, 32_753, 32_760, 32_768, 32_770, 70_000] {
+            let m = Op { k: H_MSC, shape: 0, fill: Fill::b(2).with(SZ, n) };
+            v.push((format!("msc[{} handles, {} bytes]", n, 32 + 2 * n), vec![mpd, m, mpd, Op::new(H_MSC, 1, 2)]));
+        }
+        for (i, t) in [(128u64, 256u64), (181, 181), (255, 255), (256, 128), (300, 300), (1, 32_760), (32_760, 1)] {
+            let sl = Op { k: H_SLL, shape: sll_shape(0, 0, 1), fill: Fill::b(2).with(SZ, i).with(SX, t) };
+            v.push((format!("sll[{}x{}, beyond 64 KiB]", i, t), vec![mpd, sl, mpd, Op::new(H_MSC, 1, 2)]));
+        }
         v
     }
     fn summary(&self, img: &[u8], ents: &[Ent]) -> Vec<u64> {
